@@ -17,7 +17,6 @@ import (
 	"bytes"
 	"compress/gzip"
 	"context"
-	"errors"
 	"fmt"
 	"io"
 	"strings"
@@ -278,8 +277,12 @@ func expectedReqEncoding(p plan) string {
 	return p.CliLegacyCP
 }
 
-func serverCanDecode(p plan, e string) bool { return isRegistered(e) || (p.SrvLegacyDC != "" && p.SrvLegacyDC == e) }
-func clientCanDecode(p plan, e string) bool { return isRegistered(e) || (p.CliLegacyDC != "" && p.CliLegacyDC == e) }
+func serverCanDecode(p plan, e string) bool {
+	return isRegistered(e) || (p.SrvLegacyDC != "" && p.SrvLegacyDC == e)
+}
+func clientCanDecode(p plan, e string) bool {
+	return isRegistered(e) || (p.CliLegacyDC != "" && p.CliLegacyDC == e)
+}
 
 // checkMessages applies the flag/encoding reading to one direction.
 func checkMessages(dir, enc string, msgs []e2e.GRPCMessage, originals [][]byte) string {
@@ -642,12 +645,8 @@ func runInBubble(p plan) vk.Result {
 	respMsgs, _ := e2e.MessagesOf(sf, id)
 	if v := checkMessages("response", respEnc, respMsgs, p.Resps); v != "" {
 		r := bad("%s [RPCCompressor %q SetSendCompressor %q]", v, p.SrvLegacyCP, p.SrvSet)
-		// known-finding predicate: RPCCompressor + SetSendCompressor("identity"):
-		// grpc-encoding says identity but every non-empty message is still
-		// compressed with the legacy compressor (and nothing else is wrong).
-		if p.SrvLegacyCP != "" && p.SrvSet == "identity" && !nonIdentity(respEnc) && checkMessages("response", p.SrvLegacyCP, respMsgs, p.Resps) == "" {
-			r.Sig = sigLegacyIdentity
-		}
+		// (RPCCompressor + SetSendCompressor("identity") still compressing was fixed in /repo 56d424b:
+		// a recurrence is a plain violation.)
 		return r
 	}
 	if mixed(respEnc, respMsgs, p.Resps) {
@@ -712,10 +711,6 @@ func runInBubble(p plan) vk.Result {
 	cls("completed")
 	return out
 }
-
-var _ = errors.New
-
-const sigLegacyIdentity = "c27.rpccompressor_ignores_set_identity"
 
 func TestVerifC27(t *testing.T) {
 	vk.Check(t, vk.Unit[plan]{
